@@ -654,25 +654,70 @@ impl Model {
                 }
             }
             ForBody::Yield(b, into) => {
-                let into_f = match into {
-                    Some(f) => Some(self.eval(sc, f)?),
-                    None => None,
-                };
-                if into_f.is_some() {
-                    return unknown("yield into");
+                // `into f`: a folding builtin consumes the yields one by one; any other function
+                // is applied to the list of yields afterwards
+                #[derive(PartialEq)]
+                enum Fold {
+                    List,
+                    Sum,
+                    First,
+                    Last,
+                }
+                let mut fold = Fold::List;
+                let mut post: Option<Rc<FuncV>> = None;
+                if let Some(f) = into {
+                    let fv = self.eval(sc, f)?;
+                    match &fv {
+                        V::Func(ff) => match &**ff {
+                            FuncV::Builtin(n) => match n.as_str() {
+                                "sum" => fold = Fold::Sum,
+                                "first" => fold = Fold::First,
+                                "last" => fold = Fold::Last,
+                                "len" | "sort" | "reverse" | "id" => post = Some(ff.clone()),
+                                _ => return unknown("yield into builtin"),
+                            },
+                            FuncV::Closure { .. } => post = Some(ff.clone()),
+                            _ => return unknown("yield into function kind"),
+                        },
+                        _ => return unknown("yield into non-function"),
+                    }
                 }
                 let mut acc: Vec<V> = Vec::new();
+                let mut total = BigInt::zero();
                 let r = self.for_clauses(sc, clauses, &mut |m, inner| {
                     let v = m.eval(inner, b)?;
-                    acc.push(v);
+                    match fold {
+                        Fold::List | Fold::Last => acc.push(v),
+                        Fold::Sum => match &v {
+                            V::Int(n) => total += n,
+                            x if is_num(x) || matches!(x, V::Vector(_)) => return unknown("sum of non-int"),
+                            _ => return throw("argument error: + only accepts numbers"),
+                        },
+                        Fold::First => return Err(Ctl::Break(0, Some(v))),
+                    }
                     Ok(())
                 });
-                match r {
-                    Ok(()) | Err(Ctl::Break(0, None)) => Ok(V::List(acc)),
+                let res = match r {
+                    Ok(()) | Err(Ctl::Break(0, None)) => match fold {
+                        Fold::List => Ok(V::List(acc)),
+                        Fold::Sum => Ok(V::Int(total)),
+                        Fold::First => throw("empty error: cata-first: empty"),
+                        Fold::Last => match acc.pop() {
+                            Some(v) => Ok(v),
+                            None => throw("empty error: cata-last: empty"),
+                        },
+                    },
                     Err(Ctl::Break(0, Some(v))) => Ok(v),
                     Err(Ctl::Break(n, v)) => Err(Ctl::Break(n - 1, v)),
                     Err(Ctl::Continue(n)) if n != 0 => Err(Ctl::Continue(n - 1)),
                     Err(e) => Err(e),
+                };
+                match post {
+                    Some(f) => {
+                        let v = res?;
+                        self.call_func_at(sc, &f, vec![v])
+                    }
+                    None => res,
                 }
             }
             ForBody::YieldItem(k, v, into) => {
@@ -2092,6 +2137,15 @@ impl LazyIter {
                 }
             },
         }
+    }
+}
+
+/// value of a literal key expression (ints and strings only)
+pub fn num_lit_or_str(e: &Ex) -> V {
+    match e {
+        Ex::Num(n) => num_lit(n),
+        Ex::Str(s) => V::Str(s.clone()),
+        _ => V::Null,
     }
 }
 
